@@ -26,6 +26,11 @@ use srtla_send::net::{SourceIpBinder, UplinkBinder};
 use crate::engine::Engine;
 use crate::util::{T0, dig, geti, gets, mix};
 
+unsafe extern "C" {
+    fn raise(sig: i32) -> i32;
+}
+const SIGHUP: i32 = 1;
+
 thread_local! {
     static START: std::cell::Cell<Option<tokio::time::Instant>> = const { std::cell::Cell::new(None) };
 }
@@ -81,6 +86,10 @@ pub struct LoopSim {
     /// subscribers that never read (their queues fill up at once): the loop's 1 Hz stats publish must not wait
     stalled_subs: Vec<tokio::sync::mpsc::Receiver<String>>,
     side: Option<tokio::task::JoinHandle<()>>,
+    /// our own SIGHUP listener, registered before the loop's: a SIGHUP can never take the default action
+    own_hup: tokio::signal::unix::Signal,
+    /// the uplinks currently listed in the IP file (indices into 127.0.0.10..13)
+    listed: Vec<usize>,
     work: String,
     n: usize,
     profile: String,
@@ -140,6 +149,9 @@ fn cls_of(b: &[u8]) -> &'static str {
 impl LoopSim {
     pub fn new() -> Self {
         let rt = tokio::runtime::Builder::new_current_thread().enable_all().start_paused(true).build().expect("runtime");
+        let own_hup = rt.block_on(async {
+            tokio::signal::unix::signal(tokio::signal::unix::SignalKind::hangup()).expect("SIGHUP listener")
+        });
         let receiver = StdUdp::bind("127.0.0.1:0").expect("receiver socket");
         receiver.set_nonblocking(true).unwrap();
         let _ = socket2::SockRef::from(&receiver).set_recv_buffer_size(8 << 20);
@@ -152,6 +164,8 @@ impl LoopSim {
             taps: Default::default(),
             stalled_subs: Vec::new(),
             side: None,
+            own_hup,
+            listed: Vec::new(),
             work: std::env::temp_dir().to_string_lossy().to_string(), n: 2, profile: "steady".into(),
             path: vec![], rtt: vec![], group: None, registered: vec![], pending: VecDeque::new(), ack_buf: vec![],
             rx_seqs: Default::default(), rx_count: 0, last_reply_at: vec![], cur_addr: vec![],
@@ -409,6 +423,11 @@ impl Engine for LoopSim {
         self.stop();
         self.n = cfg.get("links").and_then(Value::as_u64).unwrap_or(2) as usize;
         self.profile = cfg.get("profile").and_then(Value::as_str).unwrap_or("steady").to_string();
+        self.listed = (0..self.n).collect();
+        if self.profile == "reload" {
+            // the receiver side knows all four addresses; the file starts with the first `links` of them
+            self.n = 4;
+        }
         self.steps_total = cfg.get("steps").and_then(Value::as_u64).unwrap_or(3000);
         self.timeout_ms = cfg.get("timeout").and_then(Value::as_u64).unwrap_or(5000);
         self.path = vec![Path::Up; self.n];
@@ -448,7 +467,7 @@ impl Engine for LoopSim {
         match name.as_str() {
             "Init" => {
                 // start the real loop
-                let text: String = (0..self.n).map(|i| format!("127.0.0.{}\n", 10 + i)).collect();
+                let text: String = self.listed.iter().map(|i| format!("127.0.0.{}\n", 10 + i)).collect();
                 std::fs::write(self.ips_path(), text).expect("write ips file");
                 self.rt.block_on(async { START.with(|s| s.set(Some(tokio::time::Instant::now()))) });
                 srtla_core::verif::set_clock_fn(Some(vnow));
@@ -511,6 +530,7 @@ impl Engine for LoopSim {
                     while self.receiver.recv_from(&mut buf).is_ok() {}
                 }
                 line["n"] = json!(self.n);
+                line["listed"] = json!(self.listed.iter().map(|i| *i as i64 + 1).collect::<Vec<_>>());
                 line["mode"] = json!(if self.config.mode().is_classic() { "classic" } else { "enhanced" });
                 line["timeout"] = json!(self.timeout_ms);
                 line["profile"] = json!(self.profile.clone());
@@ -557,6 +577,59 @@ impl Engine for LoopSim {
                 };
                 line["d"] = json!(0);
                 self.bump("path_changes");
+            }
+            "Reload" => {
+                // rewrite the IP file and send the process a SIGHUP; the loop applies the list at its next housekeeping pass
+                let list: Vec<usize> = ev["list"].as_array().unwrap().iter().map(|x| x.as_u64().unwrap() as usize - 1).collect();
+                let garbage = ev.get("garbage").and_then(Value::as_bool).unwrap_or(false);
+                let mut text = String::new();
+                for (k, i) in list.iter().enumerate() {
+                    if garbage && k % 2 == 0 {
+                        text.push_str("  \nnot-an-address\n");
+                    }
+                    text.push_str(&format!(" 127.0.0.{} \n", 10 + i));
+                }
+                if list.is_empty() && garbage {
+                    text.push_str("\n\nnonsense 1.2.3\n");
+                }
+                std::fs::write(self.ips_path(), text).expect("write ips file");
+                let own = &mut self.own_hup;
+                let seen = self.rt.block_on(async {
+                    unsafe {
+                        raise(SIGHUP);
+                    }
+                    let mut seen = false;
+                    for _ in 0..20_000 {
+                        tokio::select! {
+                            biased;
+                            _ = own.recv() => { seen = true; }
+                            _ = std::future::ready(()) => {}
+                        }
+                        if seen {
+                            break;
+                        }
+                        tokio::task::yield_now().await;
+                    }
+                    seen
+                });
+                if !seen {
+                    panic!("harness: SIGHUP was not delivered");
+                }
+                let refused = list.is_empty();
+                if !refused {
+                    // (duplicates in the file count once)
+                    let mut l2: Vec<usize> = Vec::new();
+                    for i in &list {
+                        if !l2.contains(i) {
+                            l2.push(*i);
+                        }
+                    }
+                    self.listed = l2;
+                }
+                line["refused"] = json!(refused);
+                line["listed"] = json!(self.listed.iter().map(|i| *i as i64 + 1).collect::<Vec<_>>());
+                line["d"] = json!(0);
+                self.bump(if refused { "reloads_refusable" } else { "reloads" });
             }
             "SendFail" => {
                 // from now on the kernel refuses every send on link l's current socket (EPIPE)
@@ -623,6 +696,42 @@ impl Engine for LoopSim {
                     self.victim_repaired = true;
                     return Some(json!({"ev": "SetPath", "l": victim + 1, "p": "up"}));
                 }
+            }
+        }
+        if self.profile == "reload" {
+            let up = self.listed.iter().all(|i| self.registered[*i].is_some());
+            if up && now >= self.next_amnesia {
+                self.next_amnesia = now + 6_000 + rng.random_range(0..6_000);
+                // a new list: a non-empty subset of the four addresses in some order (sometimes with a duplicate or
+                // garbage lines), or -- one time in six -- nothing usable at all
+                let mut list: Vec<u64> = Vec::new();
+                if rng.random_range(0..6) != 0 {
+                    for i in 1..=4u64 {
+                        if rng.random_range(0..2) == 0 {
+                            list.push(i);
+                        }
+                    }
+                    if list.is_empty() {
+                        list.push(rng.random_range(1..=4));
+                    }
+                    if rng.random_range(0..2) == 0 {
+                        list.reverse();
+                    }
+                    if rng.random_range(0..2) == 0 {
+                        // a repeated line, not next to its first occurrence when the list is long enough
+                        let d = list[rng.random_range(0..list.len())];
+                        list.push(d);
+                    }
+                }
+                return Some(json!({"ev": "Reload", "list": list, "garbage": rng.random_range(0..2) == 0}));
+            }
+            if rng.random_range(0..3) == 0 {
+                let d = rng.random_range(20..300);
+                let d = match self.pending.iter().map(|r| r.at).min() {
+                    Some(at) if at > now => d.min(at - now),
+                    _ => d,
+                };
+                return Some(json!({"ev": "Advance", "d": d.max(1)}));
             }
         }
         if self.profile == "sendfail" {
